@@ -111,7 +111,14 @@ func loopFormTable() []*Program {
 	k := 0
 	for mask := 0; mask < 8; mask++ {
 		hasInit, hasCond, hasPost := mask&1 != 0, mask&2 != 0, mask&4 != 0
-		for _, yieldIn := range []string{"body", "post", "init", "body-and-post"} {
+		for _, yieldIn := range []string{"body", "post", "init", "body-and-post", "body/assign-init", "post/assign-init"} {
+			// "/assign-init": the initialiser is a plain assignment `i = 0` to a variable that holds a stale value
+			assignInit := strings.HasSuffix(yieldIn, "/assign-init")
+			yieldTag := yieldIn
+			yieldIn = strings.TrimSuffix(yieldIn, "/assign-init")
+			if assignInit && !hasInit {
+				continue
+			}
 			if (yieldIn == "post" || yieldIn == "body-and-post") && !hasPost || yieldIn == "init" && !hasInit {
 				continue
 			}
@@ -127,6 +134,10 @@ func loopFormTable() []*Program {
 				pre := ""
 				if hasInit {
 					init = "i := 0"
+					if assignInit {
+						pre = "\ti := 7\n"
+						init = "i = 0"
+					}
 					if yieldIn == "init" {
 						pre = "\ti := 0\n"
 						init = "$YIELD{70 + a}"
@@ -167,7 +178,7 @@ func loopFormTable() []*Program {
 					sb.WriteString("\t\tn += i\n")
 				}
 				sb.WriteString("\t}\n\t$YIELD{1000 + n}\n\t$RET\n}")
-				p := &Program{Name: name, Profile: "loop-form-table", Tags: []string{"loop-form", fmt.Sprintf("init:%v", hasInit), fmt.Sprintf("cond:%v", hasCond), fmt.Sprintf("post:%v", hasPost), "yield-in:" + yieldIn, "exit:" + exit}}
+				p := &Program{Name: name, Profile: "loop-form-table", Tags: []string{"loop-form", fmt.Sprintf("init:%v", hasInit), fmt.Sprintf("cond:%v", hasCond), fmt.Sprintf("post:%v", hasPost), "yield-in:" + yieldTag, "exit:" + exit}}
 				p.Decls = []*Decl{{Kind: "raw", Raw: sb.String()}}
 				p.Entries = []*Entry{drive(name+"G", "int", 1, [][]int{{0}, {1}})}
 				out = append(out, p)
